@@ -31,7 +31,10 @@ PUBLIC_OBJ = [F + "store_object", F + "tag_object", F + "delete_object",
               F + "delete_if_invalid_object", F + "retrieve_object", F + "get_hex_digest"]
 PUBLIC_META = [F + "store_metadata", F + "retrieve_metadata", F + "delete_metadata"]
 META_CORE = [F + "_mktmpmetadata", F + "_put_metadata"]
-REFS_CORE = [F + "_store_hashstore_refs_files", F + "_find_object", F + "_delete_object_only"]
+REFS_CORE = [F + "_store_hashstore_refs_files", F + "_find_object", F + "_delete_object_only",
+             F + "_untag_object", F + "_mark_pid_refs_file_for_deletion",
+             F + "_remove_pid_and_handle_cid_refs_deletion", F + "_validate_and_check_cid_lock",
+             F + "_delete", F + "_exists", F + "_get_hashstore_data_object_path"]
 EVERYTHING = (CHECKERS + PATHS + REF_HELPERS + SYNC + STREAM + OBJ_CORE + PUBLIC_OBJ + PUBLIC_META
               + META_CORE + REFS_CORE + [F + "_computehash", F + "_refine_algorithm_list"])
 
@@ -156,7 +159,9 @@ PROPS = {
                          r"lemma/delete_object/failure-only-for-bad-or-unknown-pid"],
     },
     "C13": {
-        "fns": [],
+        "fns": fns([F + "_untag_object", F + "_mark_pid_refs_file_for_deletion",
+                    F + "_remove_pid_and_handle_cid_refs_deletion",
+                    F + "_validate_and_check_cid_lock"], r"post/(outcome|fs|arg\d+|locks)"),
         "fault": True,
         "scenario_select": [r"fault\[.*\]/.*/(X\d-.*|F1-.*)"],
         "lemmas": ["C13/unbound-pid-can-be-stored-at-once"],
